@@ -667,6 +667,23 @@ mod builtins {
         }
     }
 
+    /// Truncates a float to an integer.
+    ///
+    /// `as i128` saturates and turns NaN into 0, a float that does not fit
+    /// is an error instead of a different number.
+    fn f64_to_int(v: f64) -> Result<Value, Error> {
+        const LIMIT: f64 = 170141183460469231731687303715884105728.0;
+        let truncated = v.trunc();
+        if truncated >= -LIMIT && truncated < LIMIT {
+            Ok(Value::from(truncated as i128))
+        } else {
+            Err(Error::new(
+                ErrorKind::InvalidOperation,
+                format!("cannot convert {v} to integer: out of range"),
+            ))
+        }
+    }
+
     /// Converts a value into an integer.
     ///
     /// ```jinja
@@ -683,14 +700,14 @@ mod builtins {
             ValueRepr::U64(_) | ValueRepr::I64(_) | ValueRepr::U128(_) | ValueRepr::I128(_) => {
                 Ok(value.clone())
             }
-            ValueRepr::F64(v) => Ok(Value::from(*v as i128)),
+            ValueRepr::F64(v) => f64_to_int(*v),
             ValueRepr::String(..) | ValueRepr::SmallStr(_) => {
                 let s = value.as_str().unwrap();
                 if let Ok(i) = s.parse::<i128>() {
                     Ok(Value::from(i))
                 } else {
                     match s.parse::<f64>() {
-                        Ok(f) => Ok(Value::from(f as i128)),
+                        Ok(f) => f64_to_int(f),
                         Err(err) => Err(Error::new(ErrorKind::InvalidOperation, err.to_string())),
                     }
                 }
